@@ -45,40 +45,41 @@ end Clients
 
 /-- what `serverSessionMedia.start / stop` do to a listener -/
 inductive RegOp (α : Type) where
-  | add (ip : IP) (port : Int) (cb : α)
-  | remove (ip : IP) (port : Int)
+  | add (ip : IP) (zone : String) (port : Int) (cb : α)
+  | remove (ip : IP) (zone : String) (port : Int)
 
 def RegOp.ip {α} : RegOp α → IP
-  | .add ip _ _ => ip
-  | .remove ip _ => ip
+  | .add ip _ _ _ => ip
+  | .remove ip _ _ => ip
 
 def applyOp {α} (m : Clients α) : RegOp α → Clients α
-  | .add ip port cb => addClient m ip port cb
-  | .remove ip port => removeClient m ip port
+  | .add ip zone port cb => addClient m ip zone port cb
+  | .remove ip zone port => removeClient m ip zone port
 
 /-- the map after a history of registrations, starting from the empty map of `initialize()` -/
 def build {α} (ops : List (RegOp α)) : Clients α := ops.foldl applyOp []
 
-/-- **Specification** of "who is registered for source `(ip, port)`", newest operation first, stated
-with Go's own address equality and without any reference to `fill` or to the map: the most recent
-`addClient` / `removeClient` whose port is `port` and whose address `Equal`s `ip` decides. -/
-def regNewestFirst {α} : List (RegOp α) → IP → Int → Option α
-  | [], _, _ => none
-  | .add ip' p' cb :: rest, ip, p =>
-    if p' = p ∧ ipEqual ip' ip = true then some cb else regNewestFirst rest ip p
-  | .remove ip' p' :: rest, ip, p =>
-    if p' = p ∧ ipEqual ip' ip = true then none else regNewestFirst rest ip p
+/-- **Specification** of "who is registered for source `(ip%zone, port)`", newest operation first,
+stated with Go's own address equality and without any reference to `fill` or to the map: the most
+recent `addClient` / `removeClient` whose port is `port`, whose zone is `zone` and whose address
+`Equal`s `ip` decides. -/
+def regNewestFirst {α} : List (RegOp α) → IP → String → Int → Option α
+  | [], _, _, _ => none
+  | .add ip' z' p' cb :: rest, ip, z, p =>
+    if p' = p ∧ z' = z ∧ ipEqual ip' ip = true then some cb else regNewestFirst rest ip z p
+  | .remove ip' z' p' :: rest, ip, z, p =>
+    if p' = p ∧ z' = z ∧ ipEqual ip' ip = true then none else regNewestFirst rest ip z p
 
-def registered {α} (ops : List (RegOp α)) (ip : IP) (port : Int) : Option α :=
-  regNewestFirst ops.reverse ip port
+def registered {α} (ops : List (RegOp α)) (ip : IP) (zone : String) (port : Int) : Option α :=
+  regNewestFirst ops.reverse ip zone port
 
 theorem build_snoc {α} (ops : List (RegOp α)) (op : RegOp α) :
     build (ops ++ [op]) = applyOp (build ops) op := by
   simp [build, List.foldl_append]
 
 theorem dispatch_build_rev {α} (rops : List (RegOp α)) (hv : ∀ op ∈ rops, ValidIP op.ip)
-    (ip : IP) (hip : ValidIP ip) (port : Int) :
-    dispatch (build rops.reverse) ip port = regNewestFirst rops ip port := by
+    (ip : IP) (hip : ValidIP ip) (zone : String) (port : Int) :
+    dispatch (build rops.reverse) ip zone port = regNewestFirst rops ip zone port := by
   induction rops with
   | nil => simp [build, dispatch, Clients.get, regNewestFirst]
   | cons op rest ih =>
@@ -86,28 +87,28 @@ theorem dispatch_build_rev {α} (rops : List (RegOp α)) (hv : ∀ op ∈ rops, 
     have hop : ValidIP op.ip := hv op List.mem_cons_self
     rw [List.reverse_cons, build_snoc]
     cases op with
-    | add ip' p' cb =>
+    | add ip' z' p' cb =>
       have hop' : ValidIP ip' := hop
       simp only [applyOp, dispatch, addClient, Clients.get_set, regNewestFirst, fill_eq_iff hop' hip]
-      by_cases h : p' = port ∧ ipEqual ip' ip = true
+      by_cases h : p' = port ∧ z' = zone ∧ ipEqual ip' ip = true
       · simp [h]
       · simp only [h, if_false]; exact ih hrest
-    | remove ip' p' =>
+    | remove ip' z' p' =>
       have hop' : ValidIP ip' := hop
       simp only [applyOp, dispatch, removeClient, Clients.get_erase, regNewestFirst, fill_eq_iff hop' hip]
-      by_cases h : p' = port ∧ ipEqual ip' ip = true
+      by_cases h : p' = port ∧ z' = zone ∧ ipEqual ip' ip = true
       · simp [h]
       · simp only [h, if_false]; exact ih hrest
 
 /-! ## the server listener with effects -/
 
-theorem Srv.recv_none {s : Srv} {ip : IP} {port : Int} (len : Nat) (now : Int)
-    (h : dispatch s.clients ip port = none) : s.recv ip port len now = (s, none) := by
+theorem Srv.recv_none {s : Srv} {ip : IP} {zone : String} {port : Int} (len : Nat) (now : Int)
+    (h : dispatch s.clients ip zone port = none) : s.recv ip zone port len now = (s, none) := by
   simp [Srv.recv, h]
 
-theorem Srv.recv_some {s : Srv} {ip : IP} {port : Int} {cb : Nat} (len : Nat) (now : Int)
-    (h : dispatch s.clients ip port = some cb) :
-    s.recv ip port len now =
+theorem Srv.recv_some {s : Srv} {ip : IP} {zone : String} {port : Int} {cb : Nat} (len : Nat) (now : Int)
+    (h : dispatch s.clients ip zone port = some cb) :
+    s.recv ip zone port len now =
       ({ s with log := ⟨cb, len, now⟩ :: s.log, stats := bump s.stats cb len now }, some cb) := by
   simp [Srv.recv, h]
 
@@ -139,12 +140,12 @@ theorem statOf_bump_self (st : List (Nat × CbStat)) (cb len : Nat) (now : Int) 
 /-- events of a server listener's life -/
 inductive SrvEv where
   | reg (op : RegOp Nat)
-  | dgram (ip : IP) (port : Int) (len : Nat) (now : Int)
+  | dgram (ip : IP) (zone : String) (port : Int) (len : Nat) (now : Int)
 
 def Srv.step (s : Srv) : SrvEv → Srv
-  | .reg (.add ip port cb) => s.add ip port cb
-  | .reg (.remove ip port) => s.remove ip port
-  | .dgram ip port len now => (s.recv ip port len now).1
+  | .reg (.add ip zone port cb) => s.add ip zone port cb
+  | .reg (.remove ip zone port) => s.remove ip zone port
+  | .dgram ip zone port len now => (s.recv ip zone port len now).1
 
 def Srv.run (evs : List SrvEv) : Srv := evs.foldl Srv.step {}
 
@@ -159,8 +160,8 @@ theorem regsOf_append (a b : List SrvEv) : regsOf (a ++ b) = regsOf a ++ regsOf 
   | nil => rfl
   | cons e rest ih => cases e <;> simp [regsOf, ih]
 
-theorem Srv.recv_clients (s : Srv) (ip : IP) (port : Int) (len : Nat) (now : Int) :
-    (s.recv ip port len now).1.clients = s.clients := by
+theorem Srv.recv_clients (s : Srv) (ip : IP) (zone : String) (port : Int) (len : Nat) (now : Int) :
+    (s.recv ip zone port len now).1.clients = s.clients := by
   unfold Srv.recv; split <;> rfl
 
 theorem Srv.run_snoc (evs : List SrvEv) (e : SrvEv) : Srv.run (evs ++ [e]) = (Srv.run evs).step e := by
@@ -176,9 +177,9 @@ theorem Srv.run_clients_rev (revs : List SrvEv) : (Srv.run revs.reverse).clients
     cases e with
     | reg op =>
       cases op with
-      | add ip port cb => simp [Srv.step, Srv.add, regsOf, build_snoc, applyOp, ih]
-      | remove ip port => simp [Srv.step, Srv.remove, regsOf, build_snoc, applyOp, ih]
-    | dgram ip port len now => simp [Srv.step, Srv.recv_clients, regsOf, ih]
+      | add ip zone port cb => simp [Srv.step, Srv.add, regsOf, build_snoc, applyOp, ih]
+      | remove ip zone port => simp [Srv.step, Srv.remove, regsOf, build_snoc, applyOp, ih]
+    | dgram ip zone port len now => simp [Srv.step, Srv.recv_clients, regsOf, ih]
 
 theorem Srv.run_clients (evs : List SrvEv) : (Srv.run evs).clients = build (regsOf evs) := by
   have := Srv.run_clients_rev evs.reverse
@@ -200,68 +201,84 @@ theorem mem_regsOf {evs : List SrvEv} {op : RegOp Nat} (h : op ∈ regsOf evs) :
 
 structure Dgram where
   ip   : IP
+  zone : String := ""
   port : Int
   len  : Nat
   now  : Int
 
-def CL.step (s : CL) (d : Dgram) : CL := (s.recv d.ip d.port d.len d.now).1
+def CL.step (s : CL) (d : Dgram) : CL := (s.recv d.ip d.zone d.port d.len d.now).1
 
 def CL.run (s : CL) (ds : List Dgram) : CL := ds.foldl CL.step s
 
 /-- the source is the negotiated one -/
-def CL.Accepts (s : CL) (ip : IP) (port : Int) : Prop :=
-  ipEqual s.readIP ip = true ∧ (port = s.readPort ∨ (s.anyPort = true ∧ s.readPort = 0))
+def CL.Accepts (s : CL) (ip : IP) (zone : String) (port : Int) : Prop :=
+  ipEqual s.readIP ip = true ∧ (s.multicast = true ∨ s.readZone = zone) ∧
+  (port = s.readPort ∨ (s.anyPort = true ∧ s.readPort = 0))
 
-instance (s : CL) (ip : IP) (port : Int) : Decidable (s.Accepts ip port) := by
+instance (s : CL) (ip : IP) (zone : String) (port : Int) : Decidable (s.Accepts ip zone port) := by
   unfold CL.Accepts; infer_instance
 
-theorem CL.recv_accepts (s : CL) (ip : IP) (port : Int) (len : Nat) (now : Int) :
-    (s.recv ip port len now).2 = true ↔ s.Accepts ip port := by
+theorem CL.recv_accepts (s : CL) (ip : IP) (zone : String) (port : Int) (len : Nat) (now : Int) :
+    (s.recv ip zone port len now).2 = true ↔ s.Accepts ip zone port := by
   unfold CL.recv CL.Accepts
   by_cases h1 : ipEqual s.readIP ip = true
-  · by_cases h2 : (s.anyPort && s.readPort == 0) = true
-    · have h2' : s.anyPort = true ∧ s.readPort = 0 := by simpa using h2
-      simp [h1, h2']
-    · have h2' : ¬ (s.anyPort = true ∧ s.readPort = 0) := by simpa using h2
-      by_cases h3 : s.readPort = port
-      · simp [h1, h3]
-      · have h3' : ¬ port = s.readPort := fun e => h3 e.symm
-        simp [h1, h2, h3, h2', h3']
+  · by_cases hz : (!s.multicast && s.readZone != zone) = true
+    · have hz' : s.multicast = false ∧ s.readZone ≠ zone := by simpa using hz
+      simp [h1, hz'.1, hz'.2]
+    · have hz' : s.multicast = true ∨ s.readZone = zone := by
+        cases hm : s.multicast with
+        | true => exact Or.inl rfl
+        | false => right; simpa [hm] using hz
+      by_cases h2 : (s.anyPort && s.readPort == 0) = true
+      · have h2' : s.anyPort = true ∧ s.readPort = 0 := by simpa using h2
+        simp [h1, hz, hz', h2']
+      · have h2' : ¬ (s.anyPort = true ∧ s.readPort = 0) := by simpa using h2
+        by_cases h3 : s.readPort = port
+        · simp [h1, hz, hz', h3]
+        · have h3' : ¬ port = s.readPort := fun e => h3 e.symm
+          simp [h1, hz, hz', h2, h3, h2', h3']
   · simp [h1]
 
-theorem CL.recv_rejected (s : CL) (ip : IP) (port : Int) (len : Nat) (now : Int)
-    (h : (s.recv ip port len now).2 = false) : (s.recv ip port len now).1 = s := by
+theorem CL.recv_rejected (s : CL) (ip : IP) (zone : String) (port : Int) (len : Nat) (now : Int)
+    (h : (s.recv ip zone port len now).2 = false) : (s.recv ip zone port len now).1 = s := by
   unfold CL.recv at h ⊢
   split
   · rfl
   · split
-    · rename_i h1 h2; simp [h1, h2] at h
+    · rfl
     · split
-      · rfl
-      · rename_i h1 h2 h3; simp [h1, h2, h3] at h
+      · rename_i h1 hz h2; simp [h1, hz, h2] at h
+      · split
+        · rfl
+        · rename_i h1 hz h2 h3; simp [h1, hz, h2, h3] at h
 
-theorem CL.recv_accepted (s : CL) (ip : IP) (port : Int) (len : Nat) (now : Int)
-    (h : (s.recv ip port len now).2 = true) :
-    (s.recv ip port len now).1 =
+theorem CL.recv_accepted (s : CL) (ip : IP) (zone : String) (port : Int) (len : Nat) (now : Int)
+    (h : (s.recv ip zone port len now).2 = true) :
+    (s.recv ip zone port len now).1 =
       { s with readPort := port, last := now, delivered := (len, port) :: s.delivered } := by
   unfold CL.recv at h ⊢
   split
   · rename_i h1; simp [h1] at h
   · split
-    · rfl
+    · rename_i h1 hz; simp [h1, hz] at h
     · split
-      · rename_i h1 h2 h3; simp [h1, h2, h3] at h
-      · rename_i h1 h2 h3
-        have : s.readPort = port := by simpa using h3
-        subst this; rfl
+      · rfl
+      · split
+        · rename_i h1 hz h2 h3; simp [h1, hz, h2, h3] at h
+        · rename_i h1 hz h2 h3
+          have : s.readPort = port := by simpa using h3
+          subst this; rfl
 
 /-- configuration fields never change -/
-theorem CL.recv_cfg (s : CL) (ip : IP) (port : Int) (len : Nat) (now : Int) :
-    (s.recv ip port len now).1.anyPort = s.anyPort ∧ (s.recv ip port len now).1.readIP = s.readIP := by
+theorem CL.recv_cfg (s : CL) (ip : IP) (zone : String) (port : Int) (len : Nat) (now : Int) :
+    (s.recv ip zone port len now).1.anyPort = s.anyPort ∧ (s.recv ip zone port len now).1.readIP = s.readIP ∧
+    (s.recv ip zone port len now).1.readZone = s.readZone ∧ (s.recv ip zone port len now).1.multicast = s.multicast := by
   unfold CL.recv; split
-  · exact ⟨rfl, rfl⟩
+  · exact ⟨rfl, rfl, rfl, rfl⟩
   · split
-    · exact ⟨rfl, rfl⟩
-    · split <;> exact ⟨rfl, rfl⟩
+    · exact ⟨rfl, rfl, rfl, rfl⟩
+    · split
+      · exact ⟨rfl, rfl, rfl, rfl⟩
+      · split <;> exact ⟨rfl, rfl, rfl, rfl⟩
 
 end Rtsp.Peer
